@@ -17,6 +17,7 @@ import ast
 import itertools
 from typing import Any, Dict, FrozenSet, Iterator, List, Optional, Sequence, Set, Tuple
 
+from engine.srcmatch import U
 from engine.model import AnalysisError, Program, dotted, walk_no_nested
 
 WHOLE = 'WHOLE-LIST'
@@ -31,7 +32,7 @@ def _fields_of(mod: Any, cname: str) -> List[str]:
         if bn and bn != 'Helper' and mod.has_class(bn):
             out += _fields_of(mod, bn)
     for st in c.body:
-        if isinstance(st, ast.AnnAssign) and isinstance(st.target, ast.Name) and 'ClassVar' not in ast.unparse(st.annotation):
+        if isinstance(st, ast.AnnAssign) and isinstance(st.target, ast.Name) and 'ClassVar' not in U(st.annotation):
             if st.target.id not in out:
                 out.append(st.target.id)
     return out
@@ -58,7 +59,7 @@ def _ctor_map(mod: Any, cname: str) -> Tuple[List[str], Dict[str, Set[str]]]:
             return params, dep
     for b in c.bases:
         bn = dotted(b)
-        if bn and bn != 'Helper' and mod.has_class(bn) and not any(isinstance(st, ast.AnnAssign) and 'ClassVar' not in ast.unparse(st.annotation) for st in c.body):
+        if bn and bn != 'Helper' and mod.has_class(bn) and not any(isinstance(st, ast.AnnAssign) and 'ClassVar' not in U(st.annotation) for st in c.body):
             return _ctor_map(mod, bn)
     fl = _fields_of(mod, cname)
     return [f.lstrip('_') for f in fl], {f.lstrip('_'): {f} for f in fl}
@@ -125,7 +126,7 @@ def export_lists(fn: ast.FunctionDef) -> List[Tuple[ast.AST, Any]]:
             raise Unrecognised(expr, 'comprehension')
         if isinstance(expr, ast.Call) and dotted(expr.func) == 'filter':
             raise Filtered(expr)
-        raise Unrecognised(expr, f'list expression `{ast.unparse(expr)[:40]}`')
+        raise Unrecognised(expr, f'list expression `{U(expr)[:40]}`')
 
     def block(stmts: Sequence[ast.stmt], env: Dict[str, Any]) -> List[Dict[str, Any]]:
         """returns the environments that fall through"""
@@ -194,7 +195,7 @@ def export_lists(fn: ast.FunctionDef) -> List[Tuple[ast.AST, Any]]:
             raise Unrecognised(st, f'list method {meth}')
         if isinstance(st, ast.Delete):
             raise Filtered(st)
-        raise Unrecognised(st, f'statement `{ast.unparse(st)[:40]}`')
+        raise Unrecognised(st, f'statement `{U(st)[:40]}`')
 
     rest = block(fn.body, {})
     if rest:
@@ -216,7 +217,7 @@ def parse_positions(mod: Any, cname: str, fn: ast.FunctionDef) -> Tuple[Any, Dic
                 if isinstance(n.slice, ast.Constant) and isinstance(n.slice.value, int) and n.slice.value >= 0:
                     out.add(n.slice.value)
                 else:
-                    raise Unrecognised(n, f'args index `{ast.unparse(n)}`')
+                    raise Unrecognised(n, f'args index `{U(n)}`')
             elif isinstance(n, ast.Name) and n.id in var_pos:
                 out |= var_pos[n.id]
         return out
@@ -265,7 +266,7 @@ def accepted_lengths(fn: ast.FunctionDef, upto: int = 12) -> Optional[Set[int]]:
     """Lengths of `args` not rejected by the top-level arity guards of parse(); None when no guard is recognised."""
     alias = {'len(args)'}
     for n in ast.walk(fn):
-        if isinstance(n, ast.Assign) and ast.unparse(n.value) == 'len(args)' and isinstance(n.targets[0], ast.Name):
+        if isinstance(n, ast.Assign) and U(n.value) == 'len(args)' and isinstance(n.targets[0], ast.Name):
             alias.add(n.targets[0].id)
     guards: List[ast.expr] = []
     exact: Optional[int] = None
@@ -287,7 +288,7 @@ def accepted_lengths(fn: ast.FunctionDef, upto: int = 12) -> Optional[Set[int]]:
         if isinstance(t, ast.UnaryOp) and isinstance(t.op, ast.Not):
             v = ev(t.operand, L)
             return None if v is None else not v
-        if isinstance(t, ast.Compare) and len(t.ops) == 1 and ast.unparse(t.left) in alias:
+        if isinstance(t, ast.Compare) and len(t.ops) == 1 and U(t.left) in alias:
             try:
                 rhs = ast.literal_eval(t.comparators[0])
             except Exception:
@@ -337,7 +338,7 @@ def q6_helper_args(ctx: Any, prog: Program) -> None:
         try:
             lists = export_lists(efn)
         except Filtered as f:
-            ctx.check('C16.Q6', not positional, hlp, f.node, f'{cname}.export drops or filters individual arguments (`{ast.unparse(f.node)[:60]}`), but {cname}.parse assigns meaning by position: '
+            ctx.check('C16.Q6', not positional, hlp, f.node, f'{cname}.export drops or filters individual arguments (`{U(f.node)[:60]}`), but {cname}.parse assigns meaning by position: '
                       'omitting an argument shifts every later one into the wrong field', func=f'{cname}.export', text=f'{cname}: no per-argument filtering')
             continue
         except Unrecognised as u:
